@@ -191,6 +191,25 @@ def unescaped_label_texts(ex, p, sl):
     return bad
 
 
+def is_text_of(ex, p, v, target):
+    """v is `target` turned into text — through references, to_string / as_str / String::from / into only."""
+    n = 0
+    while n < 10 and v != target:
+        n += 1
+        if v[0] == "ref":
+            v2 = ex.deref_val(p, v)
+            if v2 == v:
+                break
+            v = v2
+        elif v[0] == "deref":
+            v = v[1]
+        elif v[0] == "app" and len(v[2]) == 1 and re.search(r"(::to_string|::as_str|Deref>::deref|String::from|From<.*>>::from|Into<.*>>::into|AsRef<.*>>::as_ref|Borrow<.*>>::borrow|::to_owned|::clone)$", str(v[1])):
+            v = v[2][0]
+        else:
+            break
+    return v == target
+
+
 def nolook_path(p, item):
     from .common import cond_variant
     for c_, o_ in p.conds:
@@ -298,7 +317,7 @@ def analyze(ctx, want):
             labv = ex.deref_val(p, argval(sl[-1], 1)) if sl else None
             if zero and zero[-1][1] is True:
                 node_cases.add("start")
-                ok = labv is not None and (S.mentions(labv, lambda x: x == idv) or (peeled and S.fstr(labv).strip('&*"') == "0")) and lab is None
+                ok = labv is not None and (is_text_of(ex, p, labv, idv) or (peeled and S.fstr(labv).strip('&*"') == "0")) and lab is None
                 ob("C18.b", "start-state-labelled-with-its-id", ok, "label %s" % (S.fstr(labv)[:60] if labv else None), rd.loc())
             elif acc and acc[-1][1] is True:
                 node_cases.add("accepting")
@@ -309,7 +328,7 @@ def analyze(ctx, want):
                 ob("C18.b", "accepting-state-marked", len(red) == 1, "%d red markers" % len(red), rd.loc())
             elif acc:
                 node_cases.add("plain")
-                ok = labv is not None and S.mentions(labv, lambda x: x == idv) and lab is None
+                ok = labv is not None and is_text_of(ex, p, labv, idv) and lab is None
                 ob("C18.b", "plain-state-labelled-with-its-id", ok, "label %s" % (S.fstr(labv)[:60] if labv else None), rd.loc())
         sl = p.calls(r"::set_label$")      # (the node checks above narrowed it to the node's own label)
         if ed:
